@@ -314,6 +314,12 @@ func (g *gsim) startQuery(o *kit.Out, r *kit.Rand) {
 	}
 	script, pauses := randScript(r, g.ns, true)
 	if g.phase == 3 && g.at == 3 {
+		if len(g.blocked) >= 3 {
+			// keep the cstep answer (one progress entry per blocked query) under the kit's 300-byte cut
+			g.nextID--
+			g.cstep(o)
+			return
+		}
 		o.Op("qblk %d %s %s", id, kind, script)
 		g.blocked = append(g.blocked, id)
 		if pauses > 0 {
@@ -465,7 +471,7 @@ func malformed(o *kit.Out, r *kit.Rand, n int) {
 func gen(o *kit.Out, r *kit.Rand, tier string) {
 	nRand, lenRand, nMal, nHam, hamBlocks := 220, 45, 150, 4, 150
 	if tier == "thorough" {
-		nRand, lenRand, nMal, nHam, hamBlocks = 1500, 70, 500, 28, 1200
+		nRand, lenRand, nMal, nHam, hamBlocks = 1500, 70, 500, 20, 900
 	}
 	boundary(o)
 	rr := r.Fork()
